@@ -128,6 +128,18 @@ def gen(tier, seed):
         "  if (nn > 0) then\n    x(1) = tmp\n  end if\nend subroutine sub")
     add("clash", {"v": 5}, "k = 2\ncall sub(k, i1)",
         "subroutine sub(n, k)\n  integer, intent(in) :: n\n  integer, intent(inout) :: k\n  k = k + n\nend subroutine sub")
+    # --- static (SAVE) locals: implicit save through initialisation, explicit save, parameters
+    add("static", {"v": 1}, "call stamp(a(1))\ncall stamp(a(2))",
+        "subroutine stamp(x)\n  real(kind=wp), intent(inout) :: x\n  integer :: ncalls = 0\n  ncalls = ncalls + 1\n"
+        "  x = x + ncalls\nend subroutine stamp")
+    add("static", {"v": 2}, "do i = lo, hi\n  call stamp(a(i))\nend do\ncall stamp(b(1))",
+        "subroutine stamp(x)\n  real(kind=wp), intent(inout) :: x\n  logical :: first = .true.\n  if (first) then\n"
+        "    x = 0.0\n    first = .false.\n  else\n    x = x + 1.0\n  end if\nend subroutine stamp")
+    add("static", {"v": 3}, "call stamp(a(1))\ncall stamp(a(2))",
+        "subroutine stamp(x)\n  real(kind=wp), intent(inout) :: x\n  integer, save :: ncalls\n  ncalls = ncalls + 1\n"
+        "  x = x + ncalls\nend subroutine stamp")
+    add("static", {"v": 4}, "call stamp(a(1))\ncall stamp(a(2))",
+        "subroutine stamp(x)\n  real(kind=wp), intent(inout) :: x\n  integer, parameter :: inc = 2\n  x = x + inc\nend subroutine stamp")
     # --- named / reordered / optional arguments
     add("named", {"v": 1}, "call sub(y=r, x=t)",
         "subroutine sub(x, y)\n  real(kind=wp), intent(in) :: x\n  real(kind=wp), intent(inout) :: y\n  y = y - x\nend subroutine sub")
